@@ -281,7 +281,9 @@ class Resolver:
             if not self._local_defs(fi, f.id):
                 return []
         elif isinstance(f, ast.Call):
-            if not ((isinstance(f.func, ast.Name) and f.func.id == "getattr") or (isinstance(f.func, ast.Attribute) and f.func.attr in ("get", "pop", "setdefault"))):
+            # getattr(self, n)(…), TABLE.get(k)(…), and `self.lookup(x)(…)` where lookup returns a handler
+            if not ((isinstance(f.func, ast.Name) and f.func.id == "getattr") or (isinstance(f.func, ast.Attribute) and f.func.attr in ("get", "pop", "setdefault"))
+                    or (isinstance(f.func, ast.Attribute) and isinstance(f.func.value, ast.Name) and f.func.value.id in ("self", "cls"))):
                 return []
         elif isinstance(f, ast.Subscript):
             pass
